@@ -3,10 +3,11 @@ mount-time validation is not bypassed (MT5), cluster-range bounds agree (FT11)."
 from .framework import rule
 from .ev import all_guards, guarded, g_call, g_cmp, g_try_ok, try_inner
 from .mir import tstr, callee_of, path_matches, strip_refs, subterms, tmatch, find_sub, strip_generics
-from .fsmodel import VM, VMD, FATVOL, call_matches, ok_returns, err_returns, medium_effects, state_effects, FAT_MUTATORS, CACHE_MUTATORS
+from .fsmodel import VM, VMD, FATVOL, table_of_term, call_matches, ok_returns, err_returns, medium_effects, state_effects, FAT_MUTATORS, CACHE_MUTATORS
 from .dataflow import var_def_terms
 from .rules_guard import has_sub, last_field
 from .rules_fs import fat_arms
+from .specialise import specialise_on, specialise_all, compared_constants, accepted_values, _fold, _subst_pred, _value_pred
 
 
 def dirty_stores(fn):
@@ -19,11 +20,39 @@ def dirty_stores(fn):
     return out
 
 
+def dirty_setters(F):
+    """Crate functions that store true into <their first argument>.dirty on every path to their return: calling one on
+    open_files[f] is a set site (the store moved into a helper leaves the behaviour unchanged)."""
+    out = set()
+    for g in F.fns:
+        st = [(b, i) for (b, i, v) in dirty_stores(g) if v in (1, True)]
+        if not st or g.arg_count < 1:
+            continue
+        ok = True
+        for (b, i) in st:
+            s = g.blocks[b]["stmts"][i]
+            base = strip_refs(g.term_of_place({"l": g.canon_place(s["p"])["l"], "proj": []}))
+            if not (base[0] == "arg" and base[1] == 1):
+                ok = False
+        if not ok:
+            continue
+        free = g.reach([0], cut_blocks=[b for b, i in st])
+        if any(g.blocks[b]["term"]["k"] == "Return" for b in free):
+            continue
+        out.add(g.npath)
+    return out
+
+
 @rule("DR1", ["C02", "C09", "C05", "C01"], floor=8,
       doc="dirty-flag discipline: in VolumeManager::write the store open_files[f].dirty = true lies on every path to every medium mutation (alloc_cluster, cache write) and every change of the file's recorded entry (length, first cluster, attributes, mtime), so whatever a write changed - even one that later fails - is committed to the directory entry by the next flush/close; and no function clears the flag before the last fallible medium write it stands for")
 def dr1(F, R):
     fn = F.fn(VM + "::write")
     sets = [(b, i) for (b, i, v) in dirty_stores(fn) if v in (1, True)]
+    setters = dirty_setters(F)
+    for b, t in fn.calls():
+        c = callee_of(t)
+        if c and strip_generics(c) in setters and t["args"] and table_of_term(fn.term_of_operand(t["args"][0], b)) == "open_files":
+            sets.append((b, None))
     R.require(len(sets) >= 1, fn, "sets-dirty", "write() never marks the file dirty", fn.loc(0))
     cut = [b for b, i in sets]
     free = fn.reach([0], cut_blocks=cut)
@@ -435,7 +464,7 @@ def _alts(fn, t):
     return alternatives(fn, t)
 
 
-@rule("TS3", ["C18", "C02"], floor=7,
+@rule("TS3", ["C18", "C02"], floor=8,
       doc="Timestamp::from_calendar stores (year - 1970) as u8, month - 1, day - 1, hours, minutes, seconds and succeeds only under year in 1970..=2225, month in 1..=12, day in 1..=31, hours <= 23, minutes <= 59, seconds <= 59 (so the narrowing cast and the decrements are exact and the FAT encoder's `+ 1` cannot overflow)")
 def ts3(F, R):
     from .poly import peq, SUB, C
@@ -450,23 +479,14 @@ def ts3(F, R):
             ok = ok and h[:2] == ("arg", 4) and mi[:2] == ("arg", 5) and s_[:2] == ("arg", 6)
         R.require(ok, fn, "fields", "from_calendar must store (year-1970) as u8, month-1, day-1, hours, minutes, seconds; got %s" % tstr(v), fn.loc(b, i))
 
-        def rng(argidx, lo, hi):
-            def pred(g):
-                if g.kind != "bool" or not g.truth:
-                    return False
-                t = g.term
-                if t[0] == "call" and t[1] and t[1].endswith("contains"):
-                    r = strip_refs(t[2][0])
-                    x = strip_refs(t[2][1])
-                    return x[:2] == ("arg", argidx) and r[0] == "call" and r[1] and r[1].endswith("RangeInclusive::new") and r[2][0][:2] == ("c", lo) and r[2][1][:2] == ("c", hi)
-                return False
-            return pred
-        for nm, idx, lo, hi in (("year", 1, 1970, 2225), ("month", 2, 1, 12), ("day", 3, 1, 31)):
-            R.require(guarded(fn, b, rng(idx, lo, hi))[0], fn, "range:" + nm, "Ok must require %s in %d..=%d" % (nm, lo, hi), fn.loc(b, i))
-        for nm, idx, hi in (("hours", 4, 23), ("minutes", 5, 59), ("seconds", 6, 59)):
-            g1 = guarded(fn, b, g_cmp("Le", True, lambda a, idx=idx: a[:2] == ("arg", idx), lambda z, hi=hi: z[:2] == ("c", hi)))[0]
-            g2 = guarded(fn, b, g_cmp("Lt", True, lambda a, idx=idx: a[:2] == ("arg", idx), lambda z, hi=hi: z[:2] == ("c", hi + 1)))[0]
-            R.require(g1 or g2, fn, "range:" + nm, "Ok must require %s <= %d" % (nm, hi), fn.loc(b, i))
+        for nm, idx, width, lo, hi in (("year", 1, 16, 1970, 2225), ("month", 2, 8, 1, 12), ("day", 3, 8, 1, 31), ("hours", 4, 8, 0, 23), ("minutes", 5, 8, 0, 59), ("seconds", 6, 8, 0, 59)):
+            got, used = accepted_values(fn, b, lambda a, idx=idx: a[:2] == ("arg", idx), width)
+            want = set(range(lo, hi + 1))
+            if got != want:
+                extra, missing = sorted(got - want), sorted(want - got)
+                R.bad(fn, "range:" + nm, "Ok must require exactly %s in %d..=%d; %s" % (nm, lo, hi, ("also accepts %s%s" % (extra[:4], ".." if len(extra) > 4 else "") if extra else "rejects %s" % missing[:4])), fn.loc(b, i))
+            else:
+                R.ok(fn, "range:" + nm, "Ok return lies behind %d test(s) that together admit exactly %d..=%d" % (used, lo, hi), fn.loc(b, i))
 
 
 IDX_SOURCE = {"get_volume_by_id": "open_volumes", "get_dir_by_id": "open_dirs", "get_file_by_id": "open_files"}
@@ -585,8 +605,11 @@ def ft12(F, R):
     defs = fn.defs().get(v, [])
     dts = [(d, fn.term_of_rvalue(d[3], d[1]) if d[0] == "assign" else fn.call_term(d[2], d[1])) for d in defs if d[0] in ("assign", "call")]
     somes = [d for d, t in dts if t[0] == "agg" and t[2] and t[2].endswith("Option::Some")]
-    others = [tstr(t) for d, t in dts if not (t[0] == "agg" and t[2] and (t[2].endswith("Option::Some") or t[2].endswith("Option::None")))]
-    R.require(not others and len(somes) >= 2, fn, "decider-defs", "the duplicate location must be None or Some(location) only (found %s; %d Some-definitions)" % (others, len(somes)), fn.loc(0))
+    # self.second_fat_start.map(|s| ..) is Some exactly when the geometry has a second FAT: a Some-definition that needs no test
+    geo_term = lambda x: (lambda y: y[0] == "place" and last_field(y) == "second_fat_start" and strip_refs(y[1])[:2] == ("arg", 1))(strip_refs(x))
+    maps = [d for d, t in dts if t[0] == "call" and t[1] and t[1].endswith("Option::map") and geo_term(t[2][0])]
+    others = [tstr(t) for d, t in dts if d not in maps and not (t[0] == "agg" and t[2] and (t[2].endswith("Option::Some") or t[2].endswith("Option::None")))]
+    R.require(not others and len(somes) + len(maps) >= 2, fn, "decider-defs", "the duplicate location must be None or Some(location) only (found %s; %d Some-definitions)" % (others, len(somes)), fn.loc(0))
     # whenever second_fat_start is Some the local becomes Some before the write-back
     n = 0
     for (gb, gi, g) in all_guards(fn):
@@ -595,6 +618,7 @@ def ft12(F, R):
             tgt = fn.succ(gb)[gi][0]
             free = fn.reach([tgt], cut_blocks=[d[1] for d in somes])
             R.require(not any(b in free for b in wbd + wb), fn, "some-implies-dup", "a path on which second_fat_start is Some reaches the write-back without recording the duplicate location", fn.loc(gb))
+    n += len(maps)
     R.require(n >= 2, fn, "geometry-tests", "expected the second_fat_start test in both FAT arms, found %d" % n, fn.loc(0))
 
 
@@ -678,7 +702,14 @@ def cd5(F, R):
     R.require(len(itd) == 1 and "enumerate(iter(" in tstr(itd[0]) and has_sub(itd[0], lambda q: q[0] == "place" and last_field(q) == "contents" and strip_refs(q[1])[:2] == ("arg", 1)), fn, "all-bytes", "the loop must enumerate self.contents from the start, iterates %s" % [tstr(x) for x in itd], fn.loc(h))
     item = lambda k: (lambda q: q[0] == "place" and tuple(q[2][:3]) == ("as:Some", "0", k) and q[1][0] == "call" and q[1][3] == nxt)
     writes = [(b, fn.call_term(fn.term(b), b)) for b in body if fn.term(b)["k"] == "Call" and (callee_of(fn.term(b)) or "").split("::")[-1] in ("write_fmt", "write_str", "write_char")]
-    chars = [(b, t) for b, t in writes if has_sub(t, lambda q: q[0] == "cast" and q[1] == "char" and has_sub(q[2], item("1")))]
+    def as_char(q):
+        """`c as char` or char::from(c): the byte as the ISO-8859-1 character"""
+        if q[0] == "cast" and q[1] == "char":
+            return has_sub(q[2], item("1"))
+        if q[0] == "call" and q[1] and q[1].endswith("From::from") and isinstance(q[3], int) and len(q[2]) == 1:
+            return "<char as " in fn.term(q[3]).get("callee_full", "") and has_sub(q[2][0], item("1"))
+        return False
+    chars = [(b, t) for b, t in writes if has_sub(t, as_char)]
     dots = [(b, t) for b, t in writes if '"."' in tstr(t)]
     R.require(len(chars) == 1 and len(dots) == 1 and len(writes) == 2, fn, "writes", "expected exactly two output sites in the byte loop (the '.' and the byte as a char), found %d" % len(writes), fn.loc(h))
     not_space = lambda g: g.kind == "bool" and g.term[0] == "cmp" and g.term[1] == "Eq" and g.truth is False and has_sub(g.term[2], item("1")) and g.term[3][:2] == ("c", 0x20)
@@ -837,13 +868,13 @@ def ml1(F, R):
 
 
 NC_TABLE16 = [(0x0000, ("ok", 0)), (0x0001, ("ok", 1)), (0x0002, ("ok", 2)), (0x1234, ("ok", 0x1234)), (0xFFEF, ("ok", 0xFFEF)), (0xFFF0, ("ok", 0xFFF0)), (0xFFF5, ("ok", 0xFFF5)),
-              (0xFFF6, ("ok", 0xFFF6)), (0xFFF7, ("err", "BadCluster")), (0xFFF8, ("err", "EndOfFile")), (0xFFFE, ("err", "EndOfFile")), (0xFFFF, ("err", "EndOfFile"))]
+              (0xFFF6, ("ok", 0xFFF6)), (0xFFF7, ("err", "BadCluster")), (0xFFF8, ("err", "EndOfFile")), (0xFFF9, ("err", "EndOfFile")), (0xFFFE, ("err", "EndOfFile")), (0xFFFF, ("err", "EndOfFile"))]
 NC_TABLE32 = [(0x00000000, ("err", "UnterminatedFatChain")), (0x00000001, ("err", "EndOfFile")), (0x00000002, ("ok", 2)), (0x00010000, ("ok", 0x10000)), (0x0FFFFFEF, ("ok", 0x0FFFFFEF)),
-              (0x0FFFFFF6, ("ok", 0x0FFFFFF6)), (0x0FFFFFF7, ("err", "BadCluster")), (0x0FFFFFF8, ("err", "EndOfFile")), (0x0FFFFFFF, ("err", "EndOfFile")),
+              (0x0FFFFFF6, ("ok", 0x0FFFFFF6)), (0x0FFFFFF7, ("err", "BadCluster")), (0x0FFFFFF8, ("err", "EndOfFile")), (0x0FFFFFF9, ("err", "EndOfFile")), (0x0FFFFFFC, ("err", "EndOfFile")), (0x0FFFFFFF, ("err", "EndOfFile")),
               (0x10000002, ("ok", 2)), (0xF0012345, ("ok", 0x12345)), (0xF0000000, ("err", "UnterminatedFatChain")), (0xFFFFFFF8, ("err", "EndOfFile")), (0xA0000001, ("err", "EndOfFile"))]
 
 
-@rule("NC1", ["C03", "C05", "C06", "C01"], floor=26,
+@rule("NC1", ["C03", "C05", "C06", "C01"], floor=29,
       doc="next_cluster classifies a FAT entry as the specification says (as this crate has always done): FAT16 0xFFF7 bad, 0xFFF8..=0xFFFF end of chain, every other value - including 0xFFF0..0xFFF6, which are valid cluster numbers on a maximal volume - is the next cluster; FAT32 looks at the low 28 bits only, 0 unterminated, 1 and 0x0FFFFFF8.. end, 0x0FFFFFF7 bad, otherwise the next cluster is the *masked* value; decided by evaluating the classification code on the boundary values of every class, plus a check that no other constant takes part in the classification")
 def nc1(F, R):
     from .absint import Interp, State, Undecided
@@ -871,7 +902,10 @@ def nc1(F, R):
                 for x in (g.term[2], g.term[3]):
                     if x[0] == "c" and isinstance(x[1], int):
                         seen.add(x[1])
-        R.require(seen <= consts and (seen >= (consts - {1}) if arm == "Fat32" else seen == consts), fn, arm + ":constants", "the %s classification compares the entry with %s, the specification's special values are %s" % (arm, sorted(hex(x) for x in seen), sorted(hex(x) for x in consts)), fn.loc(b0))
+        # a subset is enough: comparisons with these constants cut the value range into cells every one of which has a
+        # representative in the table below, so agreement on the table is agreement everywhere (if-chains with >= 0xFFF8
+        # never mention 0xFFFF)
+        R.require(seen <= consts and len(seen) >= 2, fn, arm + ":constants", "the %s classification compares the entry with %s, the specification's special values are %s" % (arm, sorted(hex(x) for x in seen), sorted(hex(x) for x in consts)), fn.loc(b0))
         for (val, want) in table:
             I = Interp(F, mode="iv", max_paths=200)
             st = State()
@@ -978,7 +1012,14 @@ def ls7(F, R):
         R.require(len(calls) == 2, w, walker + ":sites", "expected one %s call per FAT type in %s" % (helper, walker), w.loc(0))
         for (b, t) in calls:
             # on the Err edge of the helper result the walk must not go on to another block
-            err_edges = [(gb, gi) for (gb, gi, g) in all_guards(w) if g.kind == "variant" and g.variant == "Err" and g.term[0] == "call" and g.term[3] == b]
+            def is_err_edge(g, b=b):
+                if g.kind != "variant":
+                    return False
+                if g.variant == "Err" and g.term[0] == "call" and g.term[3] == b:
+                    return True
+                x = try_inner(g.term) if g.variant == "Break" else None      # helper(..)? - the error leaves the walker at once
+                return x is not None and x[0] == "call" and x[3] == b
+            err_edges = [(gb, gi) for (gb, gi, g) in all_guards(w) if is_err_edge(g)]
             nxt = [bb for (h, body, backs) in w.loops() if b in body for bb in body if w.term(bb)["k"] == "Call" and (callee_of(w.term(bb)) or "").endswith("Iterator::next")]
             again = False
             for (gb, gi) in err_edges:
@@ -1089,79 +1130,6 @@ def mk1(F, R):
     ok_edges = [(gb, gi) for (gb, gi, g) in all_guards(fn) if g.kind == "variant" and g.variant == "Ok" and is_lk(g) and g.term[0] == "call"]
     leak = any(mk[0] in fn.reach([fn.succ(gb)[gi][0]]) for (gb, gi) in ok_edges)
     R.require(bool(ok_edges) and not leak, fn, "found-refuses", "after the lookup found an entry make_dir is still reachable", fn.loc(lk[0]))
-
-
-def _fold(t):
-    """constant value of a term (ints / bools) or None"""
-    t = strip_refs(t)
-    if t[0] == "c" and isinstance(t[1], (int, bool)):
-        return int(t[1])
-    if t[0] == "cast":
-        v = _fold(t[2])
-        if v is None:
-            return None
-        w = {"u8": 8, "u16": 16, "u32": 32, "u64": 64, "usize": 64}.get(t[1])
-        return v & ((1 << w) - 1) if w else v
-    if t[0] == "call" and t[1] and t[1].endswith(("From::from", "Into::into")) and len(t[2]) == 1:
-        return _fold(t[2][0])
-    if t[0] == "un" and t[1] == "Not":
-        v = _fold(t[2])
-        return None if v is None else int(not v)
-    if t[0] in ("bin", "cmp"):
-        a, b = _fold(t[2]), _fold(t[3])
-        if a is None or b is None:
-            return None
-        op = t[1]
-        try:
-            return {"Add": a + b, "Sub": a - b, "Mul": a * b, "BitAnd": a & b, "BitOr": a | b, "BitXor": a ^ b, "Shl": a << b, "Shr": a >> b,
-                    "Eq": int(a == b), "Ne": int(a != b), "Lt": int(a < b), "Le": int(a <= b), "Gt": int(a > b), "Ge": int(a >= b), "Rem": a % b if b else None, "Div": a // b if b else None}.get(op)
-        except Exception:  # noqa
-            return None
-    return None
-
-
-def _subst_pred(t, pred, val):
-    if isinstance(t, tuple) and t and pred(t):
-        return ("c", val, None)
-    if not isinstance(t, tuple):
-        return t
-    return tuple(_subst_pred(x, pred, val) if isinstance(x, tuple) else x for x in t)
-
-
-def specialise_on(fn, pred, val):
-    """edges that cannot be taken when the subterm selected by `pred` has the constant value `val` (bool temporaries set
-    in match arms are resolved iteratively)"""
-    cut = []
-    for (gb, gi, g) in all_guards(fn):
-        if not has_sub(g.term, pred):
-            continue
-        tt = _subst_pred(g.term, pred, val)
-        v = _fold(tt)
-        if v is None:
-            continue
-        if g.kind == "bool" and bool(v) != g.truth:
-            cut.append((gb, gi))
-        elif g.kind == "value" and v != g.value:
-            cut.append((gb, gi))
-        elif g.kind == "notvalues" and v in g.others:
-            cut.append((gb, gi))
-    for _round in range(4):
-        rs = fn.reach([0], cut_edges=cut)
-        grew = False
-        for (gb, gi, g) in all_guards(fn):
-            t_ = strip_refs(g.term)
-            if g.kind == "bool" and t_[0] == "var" and gb in rs and (gb, gi) not in cut:
-                vals = set()
-                for d in fn.defs().get(t_[1], []):
-                    if d[0] == "assign" and d[1] in rs:
-                        dv = fn.term_of_rvalue(d[3], d[1])
-                        vals.add(bool(dv[1]) if dv[0] == "c" else None)
-                if len(vals) == 1 and None not in vals and (list(vals)[0] != g.truth):
-                    cut.append((gb, gi))
-                    grew = True
-        if not grew:
-            break
-    return cut
 
 
 @rule("MT7", ["C15"], floor=20,
